@@ -29,6 +29,14 @@ def FLOORS(tier):
         f["schedule:" + s] = 150 if q else 5000
     return f
 
+_FLOORS_BEFORE_ROUND9 = FLOORS
+
+
+def FLOORS(tier):      # noqa: F811 -- floors of the input classes added in round 9 (a quarter of what seed 0 observes in the quick tier)
+    f = _FLOORS_BEFORE_ROUND9(tier)
+    f.update({'model-derived-from-common-ancestor:add-empty': 22, 'model-derived-from-common-ancestor:copy': 23, 'model-derived-from-common-ancestor:ctor': 23, 'model-derived-from-common-ancestor:deepcopy': 22})
+    return f
+
 
 def case(ctx, rng, idx):
     cfg = A.make_config(rng, one_shot_ok=True)
